@@ -11,27 +11,105 @@ COMMON_ASSUMPTIONS = [
 
 CODECS = ['dna', 'iupac', 'amino', 'text', 'masked_dna', 'masked_iupac', 'degenerate']
 
+INDEX = ['index.range', 'index.rangeto', 'index.rangetoincl', 'index.rangeincl', 'index.rangefrom', 'index.rangefull', 'index.usize']
+REMOVE = ['seq.remove.' + r for r in ['range', 'rangeto', 'rangetoincl', 'rangeincl', 'rangefrom', 'rangefull']]
+KANI_NOTE = 'trusts Kani/CBMC and the documented-alphabet oracles in laws/laws.rs (written from the module docs, IUPAC standard and NCBI table 1)'
+B_NOTE = 'assumes the bitvec contracts of layer B (external_body shims, sanity-checked natively but not proved), the repr(transparent) cast (R5) and the Codec laws proved per codec by Kani'
+
 PROPS = {
+    'C02': dict(
+        level='proof',
+        level_text='Verus proves every PartialEq impl between Seq/SeqSlice/&SeqSlice/Kmer (equal exactly when the bit views are equal; lemma: equal bits <=> equal length and symbols), the Hash impls against a ghost hasher log written from the property (content bits then length; a k-mer feeds the same log as its slice) and Borrow/AsRef consistency, generic in codec, K, storage and offset',
+        level_note=B_NOTE + '; derived PartialEq on Seq/Kmer assumed field-wise; `== &str` paths are iterator glue covered by a bounded stand-in (labelled bounded)',
+        technique='deductive verification (Verus) of extracted functions against contracts; ghost hasher log',
+        verus=[dict(name='c02', mode='T', roots=['slice.eq', 'lemma_eq', 'slice.hash', 'seq.hash', 'kmer.hash', 'seq.borrow', 'seq.as_ref', 'kmer.eq', 'kmer.unsafe_from'])],
+        standin=True,
+    ),
     'C03': dict(
         level='proof',
         level_text='Verus proves, for a generic codec (all symbol widths 1..8 at once), every length, every offset and every range, that each Index impl / len / get / nth returns exactly the requested symbols (accept-mode) and that out-of-range positions never return (refuse-mode); obligations are generated from the function text extracted from /repo on every run',
-        level_note='assumes the bitvec contracts of layer B (BitSlice::len, Index<range>), the repr(transparent) cast (R5) and the Codec laws proved by Kani in C05',
-        technique='deductive verification (Verus) of extracted functions against contracts',
+        level_note=B_NOTE,
+        technique='deductive verification (Verus) of extracted functions against contracts, accept- and refuse-mode',
         verus=[
-            dict(name='c03', mode='T', roots=['index.range', 'slice.len']),
+            dict(name='c03', mode='T', roots=INDEX + ['slice.len', 'slice.is_empty', 'slice.nth', 'slice.get', 'seq.deref', 'seq.as_ref', 'seqarray.deref']),
+            dict(name='c03', mode='R', roots=INDEX + ['slice.len', 'slice.is_empty', 'slice.nth', 'slice.get', 'slice.into_u8']),
         ],
-        explanation='',
+        standin=True,
+    ),
+    'C04': dict(
+        level='proof',
+        level_text='Verus proves the integer conversions (load_le of a slice = sum of code_i * 2^(i*BITS); longer slices refused with SequenceTooLong), KmerStorage::{to_bitarray,from_bitslice}, from_raw (Some exactly when the image holds len symbols, bits read from the image) and into_raw together with the invariant head == 0 on to_owned / & / | / edits, plus the layout lemma from bit-level agreement to the documented symbol layout',
+        level_note=B_NOTE + '; u64/u128 storage impls and From<usize>/From<&Kmer> one-liners are covered by Kani word-level harnesses and bounded stand-ins',
+        technique='deductive verification (Verus) of extracted functions against contracts; head-offset ghost state',
+        verus=[
+            dict(name='c04', mode='T', roots=['slice.try_usize', 'slice.into_u8', 'kmer.storage', 'kmer.unsafe_from', 'seq.raw', 'slice.to_owned', 'slice.bitops', 'seq.bitops', 'seq.clone', 'seq.push', 'seq.prepend', 'seq.insert', 'seq.append', 'seq.truncate', 'seq.clear', 'seq.new', 'seq.with_capacity'] + REMOVE),
+            dict(name='c04', mode='R', roots=['slice.try_usize', 'slice.into_u8']),
+        ],
+        standin=True,
     ),
     'C05': dict(
         level='proof',
         level_text='Kani proves the codec contract L0-L8 and the complement laws on the real compiled crate (real derive expansion, real transmute) for all 256 byte values x all table rows x 7 codecs x debug-assertions on/off; harnesses are loop-free over their symbolic inputs, so this is a complete enumeration of the finite domain, with counterexamples replayed natively',
-        level_note='trusts Kani/CBMC and the documented-alphabet oracles in laws/laws.rs (written from the module docs, IUPAC standard and NCBI table 1)',
+        level_note=KANI_NOTE,
         technique='Kani contract harnesses over the full u8 domain (complete), native replay of counterexamples',
         kani=dict(quick=['codec_contract_' + c for c in CODECS] + ['complement_' + c for c in ['dna', 'iupac', 'masked_dna', 'masked_iupac', 'degenerate']] + ['text_bits_identity'],
                   profiles=['debug', 'release']),
         items=True,
         explanation='complete enumeration by Kani: every harness is loop-free over a symbolic byte (all 256 values) and symbolic table rows',
         trusted_base=['documented-alphabet oracles in laws/laws.rs'],
+    ),
+    'C06': dict(
+        level='proof',
+        level_text='Verus proves for push, clear, truncate, append, prepend, insert, remove (all six RangeBounds forms) and clone that the representation invariant is kept and the whole symbol list equals the corresponding list operation (untouched positions pinned); any finite edit history follows by modularity',
+        level_note=B_NOTE + '; Rust ownership gives value independence of clones; extend/FromIterator are iterator glue covered by a bounded stand-in (labelled bounded)',
+        technique='deductive verification (Verus): data structure against an abstract list view',
+        verus=[
+            dict(name='c06', mode='T', roots=['seq.new', 'seq.with_capacity', 'seq.push', 'seq.clear', 'seq.truncate', 'seq.append', 'seq.prepend', 'seq.insert', 'seq.clone', 'slice.to_owned'] + REMOVE),
+            dict(name='c06', mode='R', roots=['seq.insert', 'seq.push', 'seq.append', 'seq.prepend']),
+        ],
+        standin=True,
+    ),
+    'C08': dict(
+        level='proof',
+        level_text='Verus proves KmerIter::next (yields the k-mer with symbols index..index+K in canonical form, None exactly when index+K > n), kmers(), unsafe_from, TryFrom<&SeqSlice> (Ok exactly for length K, MismatchedLength otherwise), Deref for Kmer and the k-mer/sequence equality impls, generic in codec, K and storage',
+        level_note=B_NOTE + '; K*BITS <= storage width is a precondition (the crate never evaluates its _ASSERT_K consts); FromStr/Display/From<Kmer> for Seq are glue covered by a bounded stand-in',
+        technique='deductive verification (Verus) of extracted functions against contracts',
+        verus=[dict(name='c08', mode='T', roots=['kmer.iter.next', 'iter.ctors', 'kmer.try_from', 'kmer.deref', 'kmer.eq', 'kmer.len', 'iter.chunks.next'])],
+        standin=True,
+    ),
+    'C09': dict(
+        level='proof',
+        level_text='Verus proves rotated_left/right and pushl/pushr generically in codec, K and storage: results are canonical (value < 2^(K*BITS)) and their symbol lists are the rotated / shifted lists; Kani proves complement, reverse and reverse-complement of 2-bit k-mers at word level for all 2^64 values per K (complete)',
+        level_note=B_NOTE + '; ' + KANI_NOTE,
+        technique='deductive verification (Verus) for rotate/push; Kani over the full usize domain for word-level comp/rev',
+        verus=[dict(name='c09', mode='T', roots=['kmer.rotate', 'kmer.push'])],
+    ),
+    'C11': dict(
+        level='proof',
+        level_text='Verus proves SeqIter/RevIter/SeqChunks next() and the constructors (iter, rev_iter, windows, chunks, into_iter): each call yields exactly the next symbol / width-w slice and advances the index; run-to-exhaustion lemmas give the full enumeration and termination',
+        level_note=B_NOTE + '; Iterator::next impls are re-homed as inherent methods (R8) so the struct invariant can be a precondition; chain/FromIterator<&SeqSlice> are std glue covered by a bounded stand-in',
+        technique='deductive verification (Verus) of iterator step functions + induction lemmas',
+        verus=[dict(name='c11', mode='T', roots=['iter.seqiter.next', 'iter.reviter.next', 'iter.chunks.next', 'iter.ctors', 'iter.into_iter'])],
+        standin=True,
+    ),
+    'C12': dict(
+        level='proof',
+        level_text='Verus proves &, | on borrowed and owned IUPAC sequences are per-symbol and/or of the codes and contains <=> equal length and every position a bitwise subset; Kani proves on the real codec that codes are nucleotide-set masks so or/and are union/intersection (all 256 pairs), From<Dna> gives singletons and complement is member-wise',
+        level_note=B_NOTE + '; ' + KANI_NOTE,
+        technique='deductive verification (Verus) + Kani complete enumeration of symbol pairs',
+        verus=[dict(name='c12', mode='T', roots=['slice.bitops', 'seq.bitops', 'iupac.contains'])],
+        kani=dict(quick=['iupac_sets', 'codec_contract_iupac', 'complement_iupac'], profiles=['debug']),
+        standin=True,
+    ),
+    'C13': dict(
+        level='proof',
+        level_text='Verus proves Standard::to_amino returns Amino::decode(sym0 + 4*sym1 + 16*sym2) for any 3-base slice at any offset (and refuses other lengths); Kani proves Amino::unsafe_from_bits on all 64 patterns against NCBI table 1; windows(3)/chunks(3) positions follow from the C11 contracts',
+        level_note=B_NOTE + '; ' + KANI_NOTE,
+        technique='deductive verification (Verus) + Kani complete enumeration of the 64 codons',
+        verus=[dict(name='c13', mode='T', roots=['translation.to_amino', 'iter.chunks.next']),
+               dict(name='c13', mode='R', roots=['translation.to_amino'])],
+        kani=dict(quick=['amino_table', 'codec_contract_amino'], profiles=['debug', 'release']),
+        standin=True,
     ),
 }
 
